@@ -232,29 +232,53 @@ pub fn model() -> &'static Model {
     M.get_or_init(Model::load)
 }
 
-/// code -> documented HTTP statuses, from data/s3_error_codes.json
-pub fn error_table() -> &'static BTreeMap<String, Option<u16>> {
-    static T: OnceLock<BTreeMap<String, Option<u16>>> = OnceLock::new();
+/// code -> documented HTTP statuses: union of data/s3_error_codes.json and the error list embedded in the Smithy
+/// model's `Error$Code` documentation (`None` = "N/A": any error status)
+pub fn error_table() -> &'static BTreeMap<String, Vec<Option<u16>>> {
+    static T: OnceLock<BTreeMap<String, Vec<Option<u16>>>> = OnceLock::new();
     T.get_or_init(|| {
         let path = format!("{}/data/s3_error_codes.json", repo_root());
         let text = std::fs::read_to_string(&path).unwrap_or_else(|e| panic!("read {path}: {e}"));
         let v: Value = serde_json::from_str(&text).expect("s3_error_codes.json");
-        let mut out = BTreeMap::new();
-        fn walk(v: &Value, out: &mut BTreeMap<String, Option<u16>>) {
-            match v {
-                Value::Array(a) => a.iter().for_each(|x| walk(x, out)),
-                Value::Object(o) => {
-                    if let (Some(code), Some(status)) = (o.get("code").and_then(|c| c.as_str()), o.get("http_status_code")) {
-                        let st = status.as_u64().map(|x| x as u16).or_else(|| status.as_str().and_then(|s| s.split_whitespace().next()).and_then(|s| s.parse().ok()));
-                        out.insert(code.to_owned(), st);
-                    } else {
-                        o.values().for_each(|x| walk(x, out));
+        let mut out: BTreeMap<String, Vec<Option<u16>>> = BTreeMap::new();
+        if let Some(groups) = v.as_object() {
+            for list in groups.values() {
+                for e in list.as_array().into_iter().flatten() {
+                    if let Some(code) = e["code"].as_str() {
+                        let st = e["http_status_code"].as_u64().map(|x| x as u16);
+                        let entry = out.entry(code.to_owned()).or_default();
+                        if !entry.contains(&st) {
+                            entry.push(st);
+                        }
                     }
                 }
-                _ => {}
             }
         }
-        walk(&v, &mut out);
+        // second source: the model documentation
+        let path = format!("{}/data/s3.json", repo_root());
+        if let Ok(text) = std::fs::read_to_string(&path) {
+            if let Ok(m) = serde_json::from_str::<Value>(&text) {
+                let doc = m["shapes"]["com.amazonaws.s3#Error"]["members"]["Code"]["traits"]["smithy.api#documentation"].as_str().unwrap_or("").to_owned();
+                let mut rest = doc.as_str();
+                while let Some(i) = rest.find("<i>Code:</i>") {
+                    rest = &rest[i + 12..];
+                    let code = rest.split('<').next().unwrap_or("").trim().to_owned();
+                    let Some(j) = rest.find("<i>HTTP Status Code:</i>") else { break };
+                    // only if it belongs to this entry (before the next Code)
+                    let next_code = rest.find("<i>Code:</i>").unwrap_or(rest.len());
+                    if j < next_code {
+                        let st_text = rest[j + 24..].split('<').next().unwrap_or("").trim().to_owned();
+                        let st: Option<u16> = st_text.split_whitespace().next().and_then(|x| x.parse().ok());
+                        if !code.is_empty() {
+                            let entry = out.entry(code).or_default();
+                            if !entry.contains(&st) {
+                                entry.push(st);
+                            }
+                        }
+                    }
+                }
+            }
+        }
         out
     })
 }
